@@ -120,6 +120,10 @@ loop:
 	for {
 		verifGate(p, "run.launch")
 		err := p.setStateAndRun(p.getStartingStateName(), p.getProcessStarter())
+		if errors.Is(err, errProcessStopped) {
+			log.Debug().Str("process", p.getName()).Msg("process stopped before launch")
+			break loop
+		}
 		if err != nil {
 			log.Error().Err(err).Msgf(`Failed to run command ["%v"] for process %s`, strings.Join(p.getCommand(), `" "`), p.getName())
 			p.logBuffer.Write(err.Error())
@@ -735,9 +739,16 @@ func (p *Process) getStatusName() string {
 	return p.procState.Status
 }
 
+var errProcessStopped = errors.New("process stopped before launch")
+
 func (p *Process) setStateAndRun(state string, runnable func() error) error {
 	p.stateMtx.Lock()
 	defer p.stateMtx.Unlock()
+	// a stop request cancels procRunCtx before it reads the state under stateMtx:
+	// either it sees the launched command, or the launch sees the cancellation
+	if p.procRunCtx.Err() != nil {
+		return errProcessStopped
+	}
 	p.procState.Status = state
 	p.onStateChange(state)
 	return runnable()
